@@ -9,7 +9,7 @@ Driver of C10 (stateful). Requests (see `harness/c10.py`):
   setglobal <k>                   set_global_colors_config(conf k); gc.collect()
   enum <e> / dropenum <e>         a PPEnumFieldType is created / released
   render <o> <kind> <k|g> <mode> <top> <subs> <lines>
-                                  o = object number (ignored here), kind obj|rec|hcmd, mode c (coloured) n (no colour) l / m (line-wise coloured / no colour)
+                                  o = object number (ignored here), kind obj|rec|hcmd, mode c (coloured) n (no colour) l / m (line-wise coloured / no colour), L / M (whole text first, then the lines)
   gp <i> / gpi <syntax id>        str(global_palette.<accessor i>("x")) / str(global_palette[id]("x"))
 -/
 open Ak Ak.Proto Render PaletteState
@@ -117,7 +117,7 @@ def handle (s : State) (line : String) : State × String :=
   | ["render", _obj, kind, k, mode, top, subs, lines] =>
     match confOf s k, top.toNat?, parseNatList subs, parseLines lines with
     | some k, some top, some subs, some ls =>
-      let nc := mode = "n" || mode = "m"
+      let nc := mode = "n" || mode = "m" || mode = "M"
       match render cfg reuseAlloc k nc ⟨top, subs, ls⟩ s with
       | .ok (s', out) => (s', observe kind mode out)
       | .error e => (s, "err " ++ e.name)
